@@ -448,6 +448,7 @@ def toEv (kind : String) (id a : Int) : Option Ev :=
   | "ret.err" => some (.retErr id)
   | "ret.succ" => some (.retSucc id)
   | "pp.seq" => some (.seq id)
+  | "txn.bump" => some (.bump id)
   | "wg.waited" => some .waited
   | "close" => some .close
   | "pp.recv" | "pp.buf" | "pp.fwd" | "pp.fail" | "pp.abandon" | "bp.bounce" | "bp.add" | "bp.sent" | "bp.sent.end"
@@ -515,6 +516,8 @@ def step (d : DS) (t : List String) : DS × String :=
     if d.failed then (d, "ok")
     else if c = "1" ∧ ¬ d.st.closed then (d, "reject: channels closed without close event")
     else if c = "1" ∧ d.st.live ≠ [] then (d, "reject: closed with live messages")
+    else if c = "1" ∧ Model.Producer.unbumped d.st ≠ [] then
+      (d, s!"reject: a message that carried a sequence number failed without an epoch bump: {Model.Producer.unbumped d.st}")
     else if d.bpOn then
       match BPW.bpEnd d.rmax d.bws with
       | .ok _ => (d, "ok")
